@@ -27,7 +27,11 @@ Inductive case :=
       (* contract-storage-based synchronisation: per batch (carries a checkpoint?, contract storage items?, trie
          nodes?); outcome of re-opening + resuming every prefix *)
 | CLongGC (ps gcp mtb : N) (fl : list (N * bool)) (obs : list (list (N * N) * list (N * N)))
-          (kinds : list N) (recov : list rres).
+          (kinds : list N) (recov : list rres)
+| CBackend (failed : bool) (eff : N) (applied : list N).
+      (* one PutChangeSet on a persistent backend: eff = keys whose value the change set changes; applied = after
+         every backend commit seen while it ran (for a call that returned an error: in the state it left behind) how
+         many of them hold the new value *)
       (* long chain: per flush (persisted height, with GC?) - which block records the flushed batch deletes and
          which header-hash pages the GC after it deletes; kinds of all batches (0 put, 1 gc, 2 gc of pages);
          outcome of re-opening every prefix *)
@@ -363,6 +367,13 @@ Definition check_storage_sync (obs : list (bool * bool * bool)) (recov : list rr
   let m := ss_atomic false obs in
   code_of m (m && forallb (fun r => match r with ROk _ _ => true | _ => false end) recov).
 
+(* Node/Backend.v: an atomic backend shows one durable state per change set, with all of it ([atomic_counts]); a call
+   that fails commits nothing *)
+Definition check_backend (failed : bool) (eff : N) (applied : list N) : N :=
+  let want := if failed then [0] else [eff] in
+  let m := list_eqb N.eqb applied want in
+  code_of m (forallb (fun a => (a =? 0) || ((a =? eff) && negb failed)) applied).
+
 Definition check_case (c : case) : N :=
   match c with
   | CPersist gc ntx ops obs recov => check_persist gc ntx ops obs recov
@@ -372,4 +383,5 @@ Definition check_case (c : case) : N :=
   | CJump jor p top mtb obs recov => check_jump jor p top mtb obs recov
   | CLongGC ps gcp mtb fl obs kinds recov => check_long ps gcp mtb fl obs kinds recov
   | CStorageSync _ obs recov => check_storage_sync obs recov
+  | CBackend failed eff applied => check_backend failed eff applied
   end.
